@@ -29,6 +29,7 @@ fn anchors() -> Vec<NaiveDate> {
 fn rand_site(r: &mut Rng) -> Site {
     let lon = r.range(-1_800_000, 1_800_000);
     Site {
+        dlat: 0,
         lat: r.range(-600_000, 600_000),
         lon,
         el: r.range(0, 3000),
